@@ -255,6 +255,18 @@ impl Acc {
             Ok(v) => v,
             Err(p) => Verdict::Violated(vec![Violation::new(p.sig(), format!("uncaught {}", p.describe()))]),
         };
+        // The statements and table definitions of the cases are generator-made and valid in the documented syntax; on the
+        // tree the harness was developed against none is ever rejected. A monitor that could not run its case because the
+        // engine REJECTED the statement or the definition has not "observed nothing": the query did not produce the
+        // result the property speaks about. (Monitors with oracles of their own for rejection - C13, C14, C20 - never
+        // return these reasons.)
+        let verdict = match verdict {
+            Verdict::Inconclusive(reason) if reason.starts_with("stmt") || reason.starts_with("table:") || reason.starts_with("j table:") => {
+                let norm: String = { let mut q = false; reason.chars().filter(|c| { if *c == '\'' { q = !q; } !q || *c == '\'' }).filter(|c| !c.is_ascii_digit()).take(60).collect() };
+                Verdict::Violated(vec![Violation::new(format!("generated-input-rejected|{}", norm), format!("the engine rejected a generator-made statement / definition: {}", reason))])
+            }
+            v => v,
+        };
         self.evaluations += 1;
         self.sub_evals += obs.evals;
         for (k, v) in obs.features { *self.features.entry(k).or_insert(0) += v; }
